@@ -103,132 +103,6 @@ theorem strip_of_ends (c d : Char) (m : Str) (hc : pySpace c = false) (hd : pySp
   rw [show (c :: m ++ [d]) = c :: (m ++ [d]) by simp, lstrip_cons_nonspace c _ hc,
     ← List.cons_append, rstrip_append_nonspace _ d hd]
 
-/-! ### split / join -/
-
-theorem joinSep_cons (sep : Char) (p : Str) (ps : List Str) (h : ps ≠ []) :
-    joinSep sep (p :: ps) = p ++ sep :: joinSep sep ps := by
-  cases ps with
-  | nil => exact absurd rfl h
-  | cons q rest => rfl
-
-/-- `sep.join(s.split(sep)) == s` -/
-theorem joinSep_splitOn (sep : Char) (s : Str) : joinSep sep (splitOn sep s) = s := by
-  induction s with
-  | nil => rfl
-  | cons c cs ih =>
-    unfold splitOn at ih ⊢
-    by_cases h : c = sep
-    · simp only [splitAux, h, if_true]
-      rw [joinSep_cons _ _ _ (by simp), ih]; rfl
-    · simp only [splitAux, h, if_false]
-      cases hps : (splitAux sep cs).2 with
-      | nil => rw [hps] at ih; simp only [joinSep] at ih ⊢; rw [ih]
-      | cons q rest =>
-        rw [hps] at ih
-        simp only [joinSep] at ih ⊢
-        rw [List.cons_append, ih]
-
-/-- the pieces contain everything but the separators -/
-theorem flatten_splitOn (sep : Char) (s : Str) :
-    (splitOn sep s).flatten = s.filter (fun c => c != sep) := by
-  induction s with
-  | nil => rfl
-  | cons c cs ih =>
-    unfold splitOn at ih ⊢
-    by_cases h : c = sep
-    · simp only [splitAux, h, if_true]
-      simpa using ih
-    · simp only [splitAux, h, if_false]
-      have : (c != sep) = true := by simpa using h
-      simp only [List.flatten_cons, List.cons_append, List.filter_cons, this, if_true] at ih ⊢
-      rw [ih]
-
-/-- no piece contains the separator -/
-theorem splitOn_noSep (sep : Char) (s : Str) : ∀ p ∈ splitOn sep s, sep ∉ p := by
-  induction s with
-  | nil => intro p hp; simp [splitOn, splitAux] at hp; simp [hp]
-  | cons c cs ih =>
-    unfold splitOn at ih ⊢
-    intro p hp
-    by_cases h : c = sep
-    · simp only [splitAux, h, if_true, List.mem_cons] at hp
-      rcases hp with hp | hp | hp
-      · simp [hp]
-      · exact ih p (by simp [hp])
-      · exact ih p (by simp [hp])
-    · simp only [splitAux, h, if_false, List.mem_cons] at hp
-      rcases hp with hp | hp
-      · have := ih (splitAux sep cs).1 (by simp)
-        rw [hp]
-        intro hm
-        rcases List.mem_cons.mp hm with e | e
-        · exact h e.symm
-        · exact this e
-      · exact ih p (by simp [hp])
-
-/-- the number of pieces is one more than the number of separators -/
-theorem length_splitOn (sep : Char) (s : Str) :
-    (splitOn sep s).length = (s.filter (fun c => c == sep)).length + 1 := by
-  induction s with
-  | nil => rfl
-  | cons c cs ih =>
-    unfold splitOn at ih ⊢
-    by_cases h : c = sep
-    · simp only [splitAux, h, if_true]
-      simp at ih ⊢
-      omega
-    · simp only [splitAux, h, if_false]
-      have : (c == sep) = false := by simpa using h
-      simp [this] at ih ⊢
-      omega
-
-theorem splitOn_single (sep : Char) (s : Str) (h : sep ∉ s) : splitOn sep s = [s] := by
-  induction s with
-  | nil => rfl
-  | cons c cs ih =>
-    have hc : c ≠ sep := fun e => h (by simp [e])
-    have hcs : sep ∉ cs := fun e => h (List.mem_cons_of_mem _ e)
-    have := ih hcs
-    unfold splitOn at this ⊢
-    simp only [splitAux, hc, if_false]
-    simp only [List.cons.injEq] at this
-    simp [this.1, this.2]
-
-theorem splitOn_append_sep (sep : Char) (a b : Str) (h : sep ∉ a) :
-    splitOn sep (a ++ sep :: b) = a :: splitOn sep b := by
-  induction a with
-  | nil => simp [splitOn, splitAux]
-  | cons c cs ih =>
-    have hc : c ≠ sep := fun e => h (by simp [e])
-    have hcs : sep ∉ cs := fun e => h (List.mem_cons_of_mem _ e)
-    have := ih hcs
-    unfold splitOn at this ⊢
-    simp only [List.cons_append, splitAux, hc, if_false]
-    simp only [List.cons.injEq] at this
-    simp [this.1, this.2]
-
-/-- `sep.join(pieces).split(sep) == pieces` when no piece contains the separator -/
-theorem splitOn_joinSep (sep : Char) (ps : List Str) (hne : ps ≠ []) (h : ∀ p ∈ ps, sep ∉ p) :
-    splitOn sep (joinSep sep ps) = ps := by
-  induction ps with
-  | nil => exact absurd rfl hne
-  | cons p rest ih =>
-    cases rest with
-    | nil => simpa [joinSep] using splitOn_single sep p (h p (by simp))
-    | cons q rest' =>
-      rw [joinSep_cons _ _ _ (by simp), splitOn_append_sep _ _ _ (h p (by simp)),
-        ih (by simp) (fun x hx => h x (List.mem_cons_of_mem _ hx))]
-
-theorem dropLast_append_getLast (l : List Str) (h : l ≠ []) :
-    l.dropLast ++ [l.getLast?.getD []] = l := by
-  have := List.dropLast_concat_getLast h
-  rw [List.getLast?_eq_some_getLast h]
-  simpa using this
-
-theorem splitStmts_ne_nil (code : Str) : splitStmts code ≠ [] := by
-  unfold splitStmts splitOn
-  simp [List.flatMap_cons]
-
 /-! ### f-strings -/
 
 theorem escapeQ_eq_self_iff (s : Str) : escapeQ s = s ↔ '\'' ∉ s := by
@@ -260,66 +134,36 @@ theorem fstrRegex_fLit (q : Char) (fmt : Str) (hq : isQuote q = true) :
   rw [rstrip_append_nonspace fmt q (isQuote_nonspace q hq)]
   simp
 
+theorem hasSub_single (q : Char) (s : Str) : hasSub [q] s = s.contains q := by
+  induction s with
+  | nil => rfl
+  | cons c cs ih =>
+    simp only [hasSub, isPrefix, ih, List.contains_cons]
+    cases cs <;> simp [Bool.and_true]
+
+theorem find_quotes_first (s : Str) (h : fits s ['\''] = true) : quotes.find? (fits s) = some ['\''] := by
+  simp [quotes, h]
+
+theorem fstrText_fLitQ (q fmt : Str) : fstrText q (fLitQ q fmt) = fmt := by
+  have hlen : (fLitQ q fmt).length - 1 - 2 * q.length = fmt.length := by
+    simp [fLitQ]; omega
+  have hdrop : (fLitQ q fmt).drop (1 + q.length) = fmt ++ q := by
+    show List.drop (1 + q.length) ('f' :: (q ++ fmt ++ q)) = fmt ++ q
+    rw [Nat.add_comm, List.drop_succ_cons, List.append_assoc, List.drop_left]
+  unfold fstrText
+  rw [hlen, hdrop, List.take_left]
+
 /-! ### the registry -/
 
-theorem regGet_set (reg : Registry) (k : Key) (d : Dict) (q : Key) :
-    Registry.get (Registry.set reg k d) q = if q = k then some d else Registry.get reg q := by
-  simp [Registry.set, Registry.get]
+/-- the namespace of a step does not depend on the registry -/
+theorem evalStep_fresh (reg : Registry) (c : Ctx) (r : Req) : (evalStep reg c r).1 = (evalStep [] c r).1 := rfl
 
-/-- with no module to read back, a step runs in the namespace built from its own context -/
-theorem evalStep_fresh (reg : Registry) (c : Ctx) (r : Req)
-    (h : r.persistent = true → Registry.get reg r.key = none) :
-    (evalStep reg c r).1 = (evalStep [] c r).1 := by
-  have hb : baseDict reg c r = freshDict c := by
-    unfold baseDict
-    by_cases hp : r.persistent = true
-    · simp [hp, h hp]
-    · simp [hp]
-  have hb0 : baseDict [] c r = freshDict c := by
-    unfold baseDict
-    by_cases hp : r.persistent = true <;> simp [hp, Registry.get]
-  simp [evalStep, hb, hb0]
-
-theorem evalStep_reg (reg : Registry) (c : Ctx) (r : Req)
-    (h : r.persistent = true → Registry.get reg r.key = none) :
-    (evalStep reg c r).2 = if publishes (c, r) then Registry.set reg r.key (evalStep reg c r).1.dict else reg := by
-  have hfm : fromModule reg r = false := by
-    unfold fromModule
-    by_cases hp : r.persistent = true
-    · simp [hp, h hp]
-    · simp [hp]
-  unfold publishes
-  by_cases hf : r.fails = true
-  · simp [evalStep, hf]
-  · by_cases hm : (r.multiLine && r.persistent) = true
-    · have : (r.persistent && r.multiLine) = true := by
-        simp only [Bool.and_eq_true] at hm ⊢; exact ⟨hm.2, hm.1⟩
-      simp [evalStep, hf, hfm, hm, this]
-    · have : (r.persistent && r.multiLine) = false := by
-        simp only [Bool.and_eq_true, not_and, Bool.not_eq_true] at hm
-        cases hp : r.persistent <;> cases hq : r.multiLine <;> simp_all
-      have hm' : (r.multiLine && r.persistent) = false := by simpa using hm
-      simp [evalStep, hf, hfm, hm', this]
-
-theorem runHist_noReuse (hist : List Step) :
-    ∀ reg : Registry, (∀ t ∈ hist, t.2.persistent = true → Registry.get reg t.2.key = none) →
-      NoReuse hist → runHist reg hist = hist.map freshGlobals := by
+theorem runHist_fresh (hist : List Step) : ∀ reg : Registry, runHist reg hist = hist.map freshGlobals := by
   induction hist with
-  | nil => intro _ _ _; rfl
+  | nil => intro _; rfl
   | cons s rest ih =>
-    intro reg hreg hnr
-    have hs := hreg s (by simp)
-    simp only [runHist, List.map_cons, freshGlobals]
-    rw [evalStep_fresh reg s.1 s.2 hs]
-    congr 1
-    apply ih _ _ hnr.2
-    intro t ht hp
-    rw [evalStep_reg reg s.1 s.2 hs]
-    by_cases hpub : publishes (s.1, s.2) = true
-    · rw [if_pos hpub, regGet_set]
-      have := hnr.1 hpub t ht hp
-      simp [this, hreg t (List.mem_cons_of_mem _ ht) hp]
-    · rw [if_neg hpub]
-      exact hreg t (List.mem_cons_of_mem _ ht) hp
+    intro reg
+    simp only [runHist, List.map_cons, freshGlobals, ih]
+    rfl
 
 end AY.Resolve
